@@ -236,6 +236,38 @@ def run(ctx, chk):
     # ---- P11: a poll outcome is decided and sent whatever the log level: nothing evaluated as an argument of a log macro
     # in the poller's code can panic (the outcome would never be sent) or does part of the work
     common.log_hazard_obligations(fb, chk, 'C13.P11', [pm.body], 'the chrony polling thread')
+    # ---- P12 the first poll happens right away: from the thread's entry point to the poll loop nothing waits -- no loop, no
+    # sleep, no read of a mailbox, no wait for chronyd to show up. ("right after daemon start, with no answer ever
+    # received, the outcome is Unknown-class immediately": a start-up that waits for chronyd publishes nothing at all.)
+    WAITS = ('sleep', 'sleep_ms', 'sleep_until', 'park', 'park_timeout', 'recv', 'recv_timeout', 'recv_deadline', 'wait', 'wait_timeout',
+             'wait_while', 'join', 'yield_now', 'spin_loop', 'read_line', 'accept', 'connect')
+    cm = common.callers_map(fb)
+    chain, cur, seen_c = [], pm.body, set()
+    while cur is not None and cur.path not in seen_c and len(chain) < 6:
+        seen_c.add(cur.path)
+        ups = sorted(cm.get(cur.path, ()))
+        ups = [fb.body(u) for u in ups if fb.body(u) is not None and fb.body(u).crate.name == common.DAEMON]
+        if len(ups) != 1:
+            break
+        chain.append((ups[0], cur))
+        if ups[0].defkind == 'Closure':
+            break
+        cur = ups[0]
+    late = []
+    for caller, callee in chain:
+        sites = [bb for bb, t, fn in caller.calls() if fn and (mir.callee_name(fn) == callee.path or fn.get('path') == callee.path)]
+        for site in sites:
+            for tail, head in caller.back_edges():
+                if site in caller.reachable(head) and site not in caller.natural_loop(tail, head):
+                    late.append('%s loops at %s before it calls %s' % (caller.path.split('::')[-1], caller.where(head), callee.path.split('::')[-1]))
+            for bb, t, fn in common.user_calls(caller):
+                nm = mir.callee_name(fn) if fn else ''
+                if bb != site and nm.split('::')[-1] in WAITS and not nm.startswith(('std::fmt', 'tracing')) and site in caller.reachable(bb):
+                    late.append('%s calls %s at %s before it calls %s' % (caller.path.split('::')[-1], nm.split('::')[-1], caller.where(bb), callee.path.split('::')[-1]))
+    chk.ob('C13.P12', 'start:poll-loop-entered-without-waiting', not late, pm.body.where(0),
+           'between the polling thread\'s entry point and its loop (%s): %s' % (
+               ' <- '.join(c.path.split('::')[-1] for c, _ in chain) or 'no caller chain found', sorted(set(late))[:3] or 'nothing waits'))
+    chk.floor('C13.P12', 'functions between the thread entry and the poll loop', len(chain), 1)
     rows = {}
     # the PHC configuration: the Option whose payload is compared with the reply's reference id on some path of the loop
     cfg_keys = set()
